@@ -23,6 +23,12 @@ open Node
 @[simp] theorem emit_name (s : Node) (o : Out) : (s.emit o).name = s.name := rfl
 @[simp] theorem emit_hist (s : Node) (o : Out) : (s.emit o).hist = o :: s.hist := rfl
 
+@[simp] theorem ownBlock_qc (n r : Nat) (q : QC) (t : Option TC) (p : List Nat) : (ownBlock n r q t p).qc = q := rfl
+@[simp] theorem ownBlock_tc (n r : Nat) (q : QC) (t : Option TC) (p : List Nat) : (ownBlock n r q t p).tc = t := rfl
+@[simp] theorem ownBlock_round (n r : Nat) (q : QC) (t : Option TC) (p : List Nat) : (ownBlock n r q t p).round = r := rfl
+@[simp] theorem ownBlock_author (n r : Nat) (q : QC) (t : Option TC) (p : List Nat) : (ownBlock n r q t p).author = n := rfl
+@[simp] theorem ownBlock_payload (n r : Nat) (q : QC) (t : Option TC) (p : List Nat) : (ownBlock n r q t p).payload = p := rfl
+
 /-- Safety rule 2 of `make_vote`, as a proposition. -/
 def SafeExt (b : Block) : Prop :=
   b.qc.round + 1 = b.round ∨
@@ -481,7 +487,8 @@ theorem inv1_proposerStep (s : Node) (order : List Nat) (h : Inv1 s) :
     split
     · exact h
     · have hm := h.makes r qc tc (by rw [hq]; simp)
-      constructor <;> simp [Node.pendingBlocks] <;> grind [Inv1, Node.pendingBlocks]
+      constructor <;> simp [Node.pendingBlocks] <;>
+        grind [Inv1, Node.pendingBlocks, ownBlock_qc, ownBlock_round]
 
 theorem readBlock_found_mem (s : Node) (d : Digest) (b : Block) (h : s.readBlock d = .found b) :
     b ∈ s.store.map Prod.snd := by
@@ -513,6 +520,19 @@ theorem mem_removeAt {α : Type} (l : List α) (i : Nat) (x : α) (h : x ∈ rem
   · exact List.mem_of_mem_take h
   · exact List.mem_of_mem_drop h
 
+theorem inv1_storeBatch (s : Node) (d : Nat) (h : Inv1 s) : Inv1 (s.storeBatch d) := by
+  unfold storeBatch
+  split
+  · exact h
+  · constructor <;> simp [Node.pendingBlocks] <;> grind [Inv1, Node.pendingBlocks]
+
+theorem inv1_digestStep (s : Node) (d : Nat) (h : Inv1 s) : Inv1 (s.digestStep d) := by
+  unfold digestStep
+  have h1 := inv1_storeBatch s d h
+  split
+  · exact h1
+  · constructor <;> simp [Node.pendingBlocks] <;> grind [Inv1, Node.pendingBlocks]
+
 theorem inv1_step (c : Committee) (s : Node) (e : Event) (h : Inv1 s) : Inv1 (step c s e) := by
   unfold step
   split
@@ -530,12 +550,8 @@ theorem inv1_step (c : Committee) (s : Node) (e : Event) (h : Inv1 s) : Inv1 (st
         refine inv1_processBlock c _ b ?_ hb
         constructor <;> simp [Node.pendingBlocks] <;> grind [Inv1, Node.pendingBlocks]
     · exact inv1_proposerStep s _ h
-    · split
-      · exact h
-      · constructor <;> simp [Node.pendingBlocks] <;> grind [Inv1, Node.pendingBlocks]
-    · split
-      · exact h
-      · constructor <;> simp [Node.pendingBlocks] <;> grind [Inv1, Node.pendingBlocks]
+    · exact inv1_digestStep s _ h
+    · exact inv1_storeBatch s _ h
     · split
       · exact h
       · rename_i i _ b hb
